@@ -95,3 +95,36 @@ def layout_case(reg, nested):
             "; c_ptrs := " + ct.clist([f"({t}%N, {ct.copt(p, lambda q: str(q) + '%N')})" for t, p in ptrs]) +
             f"; c_nested := {ct.cbool(nested)}; c_expected := {exp} |}}")
     return term, st
+
+
+def gennames_case(reg):
+    """snapshot before generate_names, run it, -> Vgennames case term.  Mutates reg (names)."""
+    import inflection
+    from . import impl
+    before = [(ct.index_to_n(m.index), m.name, m.is_name_generated) for m in reg.models]
+    ptrs = impl.all_pointers(reg)
+    pt = [(ct.index_to_n(p.type.index), None if p.parent is None else ct.index_to_n(p.parent.index), p.parent_field_name) for p in ptrs]
+    words = {inflection.underscore(f) for _, par, f in pt if par is not None and f is not None}
+    chars = set()
+    for _, _, f in pt:
+        if f:
+            chars.update(f)
+    more = set()
+    for c in chars:
+        more.update(c.lower()); more.update(c.upper())
+    for w in words:
+        for c in inflection.singularize(w):
+            more.add(c); more.update(c.upper()); more.update(c.lower())
+    chars |= more
+    dre = re.compile(r"\d")
+    cp = lambda c: f"{ord(c)}%N"
+    reg.generate_names()
+    after = [(ct.index_to_n(m.index), m.name, m.is_name_generated) for m in reg.models]
+    row = lambda x: f"({x[0]}%N, {ct.copt(x[1], ct.cstr)}, {ct.copt(x[2], ct.cbool)})"
+    return ("{| c_decimal := " + ct.clist([f"({cp(c)}, true)" for c in sorted(chars) if dre.match(c)]) +
+            "; c_lower := " + ct.clist([f"({cp(c)}, {ct.cstr(c.lower())})" for c in sorted(chars) if c.lower() != c]) +
+            "; c_upper := " + ct.clist([f"({cp(c)}, {ct.cstr(c.upper())})" for c in sorted(chars) if c.upper() != c]) +
+            "; c_singular := " + ct.clist([f"({ct.cstr(w)}, {ct.cstr(inflection.singularize(w))})" for w in sorted(words)]) +
+            "; c_models := " + ct.clist([row(x) for x in before]) +
+            "; c_ptrs := " + ct.clist([f"({t}%N, {ct.copt(p, lambda q: str(q) + '%N')}, {ct.copt(f, ct.cstr)})" for t, p, f in pt]) +
+            "; c_expected := " + ct.clist([row(x) for x in after]) + " |}")
